@@ -186,7 +186,11 @@ Inductive op :=
 | OExpireClients (ids : list bytes)
 | OExpireRetained (topics : list bytes)
 | OExpireInflight (l : list (bytes * N))
-| OSysTick (topics : list bytes).
+| OSysTick (topics : list bytes)
+(* the same client packets when the write of the broker's answer fails (broken connection): the handler
+   returns the error right after the write, the connection ends *)
+| OPublishFault (id : bytes) (qos pid rop : N) (topic : bytes) (rejected : bool)
+| OPubrelFault (id : bytes) (pid : N).
 
 Definition new_client (id : bytes) (v3clean : bool) (infl : list (N * N)) (subs : list (bytes * bytes)) : client :=
   {| c_id := id; c_conn := true; c_v3clean := v3clean; c_infl := infl; c_subs := subs |}.
@@ -292,6 +296,23 @@ Definition expire_client (s : st) (id : bytes) : st :=
   | None => s
   end.
 
+(* processPublish, QoS 1/2, when cl.WritePacket(ack) fails: the acknowledgement has been stored in flight
+   (counted) and stays there; the QoS 1 completion, the fan-out and processPacket's tail are not reached *)
+Definition step_publish_fault (s : st) (id : bytes) (qos pid rop : N) (topic : bytes) (rejected : bool) : st :=
+  if rejected then s else
+  let ackty := if (qos =? 2)%N then T_PUBREC else T_PUBACK in
+  match find_ty pid (infl_of s id) with
+  | Some t =>
+      if (t =? T_PUBREC)%N then s
+      else infl_set (retain (infl_del s id pid) rop topic) id pid ackty
+  | None => infl_set (retain s rop topic) id pid ackty
+  end.
+
+(* processPubrel (reason 0) when the write of the PUBCOMP fails: the PUBCOMP has replaced the record in
+   flight and stays; an unknown identifier changes nothing *)
+Definition step_pubrel_fault (s : st) (id : bytes) (pid : N) : st :=
+  if mem_pid pid (infl_of s id) then infl_set_ignore s id pid T_PUBCOMP else s.
+
 Definition step (s : st) (o : op) : st :=
   match o with
   | OConnect id clean ver acc => step_connect s id clean ver acc
@@ -306,6 +327,8 @@ Definition step (s : st) (o : op) : st :=
   | OExpireInflight l => fold_left (fun s x => infl_del s (fst x) (snd x)) l s
   | OSysTick topics =>
       let r := fold_left (fun r t => add_b t r) topics (s_ret s) in with_ret s r (Z.of_nat (length r))
+  | OPublishFault id qos pid rop topic rej => step_publish_fault s id qos pid rop topic rej
+  | OPubrelFault id pid => step_pubrel_fault s id pid
   end.
 
 Fixpoint run (s : st) (ops : list op) : st :=
@@ -342,17 +365,27 @@ Definition as_op (v : val) : option op :=
   | VL [VN 8%N; ts] => do l <- as_BL ts; Some (OExpireRetained l)
   | VL [VN 9%N; VL l] => do l' <- map_opt as_ip l; Some (OExpireInflight l')
   | VL [VN 10%N; ts] => do l <- as_BL ts; Some (OSysTick l)
+  | VL [VN 11%N; VB id; VN qos; VN pid; VN rop; VB topic; rej] => do r <- as_bool rej; Some (OPublishFault id qos pid rop topic r)
+  | VL [VN 12%N; VB id; VN pid] => Some (OPubrelFault id pid)
   | _ => None
   end.
 
-Record obs := { ob_conn : Z; ob_subs : Z; ob_ret : Z; ob_infl : Z; oa_subs : Z; oa_ret : Z; oa_infl : Z; oa_conn : Z }.
+Record obs := { ob_conn : Z; ob_subs : Z; ob_ret : Z; ob_infl : Z; oa_subs : Z; oa_ret : Z; oa_infl : Z; oa_conn : Z;
+                ob_extra : list (Z * Z) }.
+(* ob_extra: further $SYS counters next to the value recounted by the harness (packets / messages
+   received and sent; after a $SYS tick clients total and disconnected): (reported, actual) *)
+
+Definition as_pair (v : val) : option (Z * Z) :=
+  match v with VL [a; b] => do a' <- as_Z a; do b' <- as_Z b; Some (a', b') | _ => None end.
 
 Definition as_obs (v : val) : option obs :=
-  match v with
-  | VL [ic; isb; ir; ii; VN asb; VN ar; VN ai; VN ac] =>
-      do ic' <- as_Z ic; do isb' <- as_Z isb; do ir' <- as_Z ir; do ii' <- as_Z ii;
+  let mk ic isb ir ii asb ar ai ac ex :=
+      do ic' <- as_Z ic; do isb' <- as_Z isb; do ir' <- as_Z ir; do ii' <- as_Z ii; do ex' <- map_opt as_pair ex;
       Some {| ob_conn := ic'; ob_subs := isb'; ob_ret := ir'; ob_infl := ii'; oa_subs := Z.of_N asb;
-              oa_ret := Z.of_N ar; oa_infl := Z.of_N ai; oa_conn := Z.of_N ac |}
+              oa_ret := Z.of_N ar; oa_infl := Z.of_N ai; oa_conn := Z.of_N ac; ob_extra := ex' |} in
+  match v with
+  | VL [ic; isb; ir; ii; VN asb; VN ar; VN ai; VN ac] => mk ic isb ir ii asb ar ai ac []
+  | VL [ic; isb; ir; ii; VN asb; VN ar; VN ai; VN ac; VL ex] => mk ic isb ir ii asb ar ai ac ex
   | _ => None
   end.
 
@@ -362,7 +395,8 @@ Definition as_step (v : val) : option (list op * obs) :=
 (* the specification evaluated on what the real broker reported *)
 Definition obs_ok (o : obs) : bool :=
   (ob_conn o =? oa_conn o) && (ob_subs o =? oa_subs o) && (ob_ret o =? oa_ret o) && (ob_infl o =? oa_infl o) &&
-  (0 <=? ob_conn o) && (0 <=? ob_subs o) && (0 <=? ob_ret o) && (0 <=? ob_infl o).
+  (0 <=? ob_conn o) && (0 <=? ob_subs o) && (0 <=? ob_ret o) && (0 <=? ob_infl o) &&
+  forallb (fun p : Z * Z => (fst p =? snd p) && (0 <=? fst p)) (ob_extra o).
 
 (* the real broker's counters and counts equal the model's *)
 Definition obs_is_model (o : obs) (s : st) : bool :=
@@ -376,6 +410,8 @@ Definition is_expiry (o : op) : bool :=
   | OExpireClients (_ :: _) | OExpireRetained (_ :: _) | OExpireInflight (_ :: _) | OSysTick _ => true
   | _ => false
   end.
+Definition is_fault (o : op) : bool :=
+  match o with OPublishFault _ _ _ _ _ _ | OPubrelFault _ _ => true | _ => false end.
 Definition has_rollback (o : op) : bool :=
   let rb := existsb (fun d : bytes * N * N => (snd d =? 1)%N) in
   match o with OSubscribe _ _ _ d _ => rb d | OPublish _ _ _ _ _ _ d _ => rb d | _ => false end.
@@ -391,7 +427,7 @@ Fixpoint walk (s : st) (feat : N) (steps : list (list op * obs)) : N * N :=
                      let '(s, f) := a in
                      (step s x,
                       N.lor f ((if is_takeover s x then 1 else 0) + (if is_expiry x then 2 else 0) +
-                               (if has_rollback x then 4 else 0))%N))
+                               (if has_rollback x then 4 else 0) + (if is_fault x then 8 else 0))%N))
                   ops (s, feat) in
       if negb (obs_ok o) then (1%N, feat')
       else if obs_is_model o s' then walk s' feat' r
@@ -399,7 +435,8 @@ Fixpoint walk (s : st) (feat : N) (steps : list (list op * obs)) : N * N :=
   end.
 
 Definition feat_tag (f : N) : bytes :=
-  if N.testbit f 2 then tag "queue-full"
+  if N.testbit f 3 then tag "write-fault"
+  else if N.testbit f 2 then tag "queue-full"
   else if N.testbit f 0 then (if N.testbit f 1 then tag "takeover+expiry" else tag "takeover")
   else if N.testbit f 1 then tag "expiry" else tag "plain".
 
